@@ -23,13 +23,13 @@ def Pc.pending : Pc → List Nat
   | .sRaised _ _ => [] | .sDone => [] | .rTop => [] | .rLdHigh _ => [] | .rLdLow _ _ => []
   | .rRdBuf _ _ _ => [] | .rCleared _ _ => [] | .rGotHead _ => [] | .rGotNext _ _ => []
   | .rMoved _ _ => [] | .rGotData _ _ => [] | .rWrote _ _ => [] | .rEmpty => [] | .rWaiting => []
-  | .rDone _ => []
+  | .rDone _ => [] | .tEmpty => []
 
 /-- pcs of the receive operation -/
 def Pc.isRecv : Pc → Bool
   | .rTop => true | .rLdHigh _ => true | .rLdLow _ _ => true | .rRdBuf _ _ _ => true | .rCleared _ _ => true
   | .rGotHead _ => true | .rGotNext _ _ => true | .rMoved _ _ => true | .rGotData _ _ => true
-  | .rWrote _ _ => true | .rEmpty => true | .rWaiting => true | .rDone _ => true
+  | .rWrote _ _ => true | .rEmpty => true | .rWaiting => true | .rDone _ => true | .tEmpty => true
   | .idle => false | .sTop _ => false | .sLdLow _ _ => false | .sLdHigh _ _ _ => false | .sRdBuf _ _ _ _ => false
   | .sClaimed _ _ => false | .qCalled _ => false | .qData _ => false | .qCleared _ => false | .qLdTail _ _ => false
   | .qSwapped _ _ _ => false | .sPublished _ => false | .sRaising _ => false | .sRaised _ _ => false | .sDone => false
@@ -68,7 +68,9 @@ structure QInv (s : St) : Prop where
   rGotData_old : ∀ f h d, s.pc f = .rGotData h d → isOld s h
   rWrote_old : ∀ f h d, s.pc f = .rWrote h d → isOld s h
 
-theorem qinv_init (k : Kind) (cap : Nat) : QInv (init k cap) := by
-  constructor <;> simp [init, qval, sentBy, Pc.pending, Pc.isRecv, Signal.pinit]
+theorem qinv_initM (spin : Bool) (k : Kind) (cap : Nat) : QInv (initM spin k cap) := by
+  constructor <;> simp [initM, qval, sentBy, Pc.pending, Pc.isRecv, Signal.pinit]
+
+theorem qinv_init (k : Kind) (cap : Nat) : QInv (init k cap) := qinv_initM false k cap
 
 end LibfiberVerif.Chan
